@@ -327,7 +327,8 @@ namespace Dune {
           FieldMatrix<K,2,2> temp = matrix;
           temp[0][0] -= eigenValues[0];
           temp[1][1] -= eigenValues[0];
-          if(temp.infinity_norm() <= 1e-14) {
+          // (threshold relative to the magnitude of the matrix, such that the result is invariant under scaling)
+          if(temp.infinity_norm() <= std::numeric_limits<K>::epsilon() * matrix.infinity_norm()) {
             eigenVectors[0] = {1.0, 0.0};
             eigenVectors[1] = {0.0, 1.0};
           }
